@@ -53,8 +53,15 @@ fn dispatch(op: &str, a: &[&str]) -> Option<String> {
         "memchrd" => crate::ops3::memchr_op(a, true),
         "count" => crate::ops3::count_op(a, false),
         "countd" => crate::ops3::count_op(a, true),
-        "iter" => crate::ops3::iter_op(a, false),
-        "iterd" => crate::ops3::iter_op(a, true),
+        "iter" => crate::ops3::iter_op(a, 0),
+        "iterd" => crate::ops3::iter_op(a, 1),
+        "iterdn" => crate::ops3::iter_op(a, 2),
+        "iterdr" => crate::ops3::iter_op(a, 3),
+        "memchrs" => crate::ops5::memchrs_op(a),
+        "counts" => crate::ops5::counts_op(a),
+        "iseqraw" => crate::ops5::iseqraw_op(a),
+        "rkraw" => crate::ops5::rkraw_op(a),
+        "findfree" => crate::ops5::findfree_op(a),
         "find" => crate::ops3::find_op(a),
         "fnew" => crate::ops3::fnew_op(a),
         "rfind" => crate::ops3::rfind_op(a),
